@@ -439,3 +439,8 @@ CHECKS['C09'].update(text=CHECKS['C09']['text'] + ' E7: in the chain-walking fla
                      'E8: a node-pointer field of the container that a non-re-linking function assigns (a remembered lookup position) must '
                      'be reset or re-established after every write to a chain link or end pointer on every path (three-state forward '
                      'analysis: valid / stale / invalid; no instance while the record has no such field).')
+CHECKS['C19'].update(text=CHECKS['C19']['text'] + ' Q2: every path from the entry of a size-parameterised routine to a return that is not an '
+                     'argument-validation exit (a parameter, or what it points to, found NULL/zero) or a NULL-returning failure exit passes a '
+                     'terminator store into the destination or a delegation of (dst, size) to another routine of the family.')
+CHECKS['C17'].update(text=CHECKS['C17']['text'] + ' LP3: inside a rewrite-and-rescan loop a cursor into the new text is its start or a search result; '
+                     'new text + a variable offset is refused unless the offset is compared with the new text\'s length.')
